@@ -28,7 +28,7 @@ class C14(Prop):
     stages = ('S1', 'S25', 'S6')
     rule = 'lines of length 1..40 (quick: 1..8 and a sample) in 8 directions x arrow glyph variants x offsets; bullets * o O at an end or mid-line in 4 directions; rounded outlines 1..30 x 1..15 (quick: a sample) with a stub attached, four corner styles; non-trivial always'
     level_text = ('Theorems C14_arrowheads_point_along_their_line (sweep over every table entry that fires on an arriving line and every triangle glyph: unique tip on the axis, strictly beyond the arriving segment, base strictly on both sides), C14_bullets_are_centred, C14_bullet_marks_the_line_end_at_its_centre (for every line and circle), C14_rounded_corners_join_their_lines / C14_condition_puts_a_line_there (every quarter arc of the tables has its centre at radius distance from both ends and is continued at each end by a tangent line), '
-                  'and through the whole recognition of the model, by sweeps inside Coq on the regenerated tables: C14_arrow_at_the_end_of_a_run (15 line/arrowhead combinations in 8 directions x lengths 1..40: exactly one solid line from the start of the run and one filled arrow polygon, tip unique, on the axis, strictly beyond the line end, inside the arrowhead cell, base on both sides) with C14_arrow_anywhere_in_context (any offset, any separated context), C14_bullet_at_the_end_of_a_run (8 directions x * o O x 1..40: a marked line ending at the centre of the bullet cell with the right marker, no text), C14_rounded_outline_is_continuous (rounded outlines with a stub, 1..12 x 1..6: one group of four quarter arcs and five lines, centres strictly inside, a tangent line ending at each arc end). '
+                  'and through the whole recognition of the model, by sweeps inside Coq on the regenerated tables: C14_arrow_at_the_end_of_a_run (15 line/arrowhead combinations in 8 directions x lengths 1..40: exactly one solid line from the start of the run and one filled arrow polygon, tip unique, on the axis, strictly beyond the line end, inside the arrowhead cell, base on both sides) with C14_arrow_anywhere_in_context (any offset, any separated context), C14_bullet_at_the_end_of_a_run (8 directions x * o O x 1..40: a marked line ending at the centre of the bullet cell with the right marker, no text), C14_bullet_in_the_middle_of_a_run (L1 + bullet + L2 cells, 1..8 each, three directions), C14_rounded_outline_is_continuous (rounded outlines with a stub, 1..12 x 1..6: one group of four quarter arcs and five lines, centres strictly inside, a tangent line ending at each arc end). '
                   'Larger outlines, box-drawing corners in whole drawings and marks in mid-line are decided by correspondence and oracle.')
     level_note = 'partial: whole-drawing statements beyond the swept ranges by correspondence plus oracle; observation O1 (a bullet before its run in reading order is a marked stub next to the unmarked run) is reported, not failed'
     def make(self, gen, rows, x, y, meta):
